@@ -14,6 +14,8 @@ import (
 	"path/filepath"
 	"regexp"
 	"runtime"
+	"runtime/debug"
+	"runtime/pprof"
 	"sort"
 	"strconv"
 	"strings"
@@ -84,6 +86,14 @@ func main() {
 	}
 	switch os.Args[1] {
 	case "check":
+		if pf := os.Getenv("GOSYM_PROF"); pf != "" {
+			f, _ := os.Create(pf)
+			pprof.StartCPUProfile(f)
+			code := cmdCheck(os.Args[2:])
+			pprof.StopCPUProfile()
+			f.Close()
+			os.Exit(code)
+		}
 		os.Exit(cmdCheck(os.Args[2:]))
 	case "replay":
 		os.Exit(cmdReplay(os.Args[2:]))
@@ -184,6 +194,9 @@ func load() (*loaded, error) {
 	}
 	prog, _ := ssautil.AllPackages(pkgs, ssa.InstantiateGenerics)
 	prog.Build()
+	// the SSA program is a large, long-lived heap: collect rarely during exploration
+	runtime.GC()
+	debug.SetGCPercent(400)
 	if os.Getenv("GOSYM_TIMING") != "" {
 		fmt.Fprintf(os.Stderr, "timing: +ssa build %.1fs\n", time.Since(start).Seconds())
 	}
@@ -310,8 +323,8 @@ func cmdCheck(args []string) int {
 		o := runHarness(ld, h, tc, *workers, *solver, *trace, *tier)
 		outs = append(outs, o)
 		classify(o, ld, known, scratch, *noReplay, *prop)
-		fmt.Fprintf(os.Stderr, "[%s] %s: %s paths=%d queries=%d (sat %d, unsat %d) solver=%.1fs wall=%.1fs %s\n",
-			h.Property, h.Name, o.status, o.res.Paths, o.res.Solver.Queries, o.res.Solver.Sat, o.res.Solver.Unsat,
+		fmt.Fprintf(os.Stderr, "[%s] %s: %s paths=%d steps=%d queries=%d (sat %d, unsat %d) solver=%.1fs wall=%.1fs %s\n",
+			h.Property, h.Name, o.status, o.res.Paths, o.res.Steps, o.res.Solver.Queries, o.res.Solver.Sat, o.res.Solver.Unsat,
 			o.res.Solver.Duration.Seconds(), o.res.Wall.Seconds(), strings.Join(o.why, "; "))
 	}
 	// verdict
@@ -438,6 +451,9 @@ func runHarness(ld *loaded, h Harness, tc TierConf, workers int, solver string, 
 	}
 	cfg.Deadline = time.Now().Add(time.Duration(to) * time.Second)
 	var sizes = ld.pkgs[0].TypesSizes
+	if os.Getenv("GOMAXPROCS") == "" {
+		runtime.GOMAXPROCS(cfg.Workers + 1)
+	}
 	o.res = interp.Explore(ld.prog, fn, cfg, sizes)
 	return o
 }
